@@ -453,9 +453,9 @@ Proof.
     + eapply submit_wf; eauto.
     + apply submit_err in E; [subst; assumption|discriminate].
     + apply submit_err in E; [subst; assumption|discriminate].
-  - destruct (0 <? amt) eqn:Ha; cbn [negb]; [|intro H; injection H as <- <- <-; assumption].
+  - destruct ((amt <? 0) || ((amt =? 0) && negb bad_denom)) eqn:Ha; [intro H; injection H as <- <- <-; assumption|].
     destruct (add_deposit P kf now s pid depositor amt bad_denom) as [r0 s0] eqn:E.
-    intro H; injection H as <- <- <-. apply Z.ltb_lt in Ha. destruct r0.
+    intro H; injection H as <- <- <-. apply orb_false_elim in Ha as [Ha _]. apply Z.ltb_ge in Ha. destruct r0.
     + eapply add_deposit_wf; eauto; lia.
     + apply add_deposit_err in E; [subst; assumption|discriminate].
     + apply add_deposit_err in E; [subst; assumption|discriminate].
@@ -581,7 +581,7 @@ Proof.
     + intros q Hq. cbn. apply find_prop_In in Hq. apply in_app_or in Hq as [Hq|[<-|[]]].
       * rewrite Forall_forall in Q2. now apply Q2.
       * exact Hg.
-  - destruct (negb (0 <? amt)); [intro H; injection H as <- <- <-; assumption|].
+  - destruct ((amt <? 0) || ((amt =? 0) && negb bad_denom)); [intro H; injection H as <- <- <-; assumption|].
     destruct (add_deposit P kf now s pid depositor amt bad_denom) as [r0 s0] eqn:E.
     intro H; injection H as <- <- <-. destruct r0;
       try (apply add_deposit_err in E; [subst; assumption|discriminate]).
